@@ -104,7 +104,7 @@ func protoVariant(p string, v int) string {
 
 func (c c34Case) incomingProto() string { return protoVariant(protoPool[c.Proto], c.ProtoVar) }
 
-var c34Handlers = []string{"echo", "forwarding", "relay", "accept", "srpc", "pubsub", "solicit"}
+var c34Handlers = []string{"echo", "forwarding", "relay", "accept", "srpc", "pubsub", "solicit", "srpc-config"}
 
 func genC34(t *rapid.T) c34Case {
 	c := c34Case{
@@ -215,6 +215,39 @@ func (c c34Case) build() (h interface {
 			lids = append(lids, peerOf(i))
 		}
 		srv, err := stream_srpc_server.NewServer(nil, quietLog, controller.NewInfo("verif/srpc", semver.MustParse("0.0.1"), "x"), nil, protos, locals, true)
+		if err != nil {
+			return nil, nil, false
+		}
+		return srv, func(p string, l, r peer.ID) bool {
+			return slices.Contains(ps, p) && (len(lids) == 0 || slices.Contains(lids, l))
+		}, true
+	case "srpc-config":
+		// the same server built the way controllers build it: configuration object + the caller's default protocol ids
+		// (Config.ApplyDefaults, then BuildServer); the defaults count only when the configuration names no protocol
+		if cproto == "" {
+			return nil, nil, false
+		}
+		conf := &stream_srpc_server.Config{DisableEstablishLink: true}
+		var ps []string
+		for _, i := range c.CProtos {
+			if protoPool[i] == "" {
+				continue
+			}
+			conf.ProtocolIds = append(conf.ProtocolIds, protoPool[i])
+			ps = append(ps, protoPool[i])
+		}
+		var lids []peer.ID
+		for _, i := range c.CLocals {
+			if i == 0 {
+				continue
+			}
+			conf.PeerIds = append(conf.PeerIds, peerStr(i))
+			lids = append(lids, peerOf(i))
+		}
+		if len(ps) == 0 {
+			ps = []string{cproto}
+		}
+		srv, err := conf.ApplyDefaults([]protocol.ID{protocol.ID(cproto)}).BuildServer(nil, quietLog, controller.NewInfo("verif/srpc", semver.MustParse("0.0.1"), "x"), nil)
 		if err != nil {
 			return nil, nil, false
 		}
